@@ -906,7 +906,237 @@ def check_C09(ctx):
     return finish_with_proofs(ctx, {'pool_types': n, 'ordered_pairs': n * n, 'fungible_pairs': len(pairs)})
 
 
-CHECKS = {'C01': check_C01, 'C02': check_C02, 'C07': check_C07, 'C09': check_C09, 'C08': check_C08, 'C10': check_C10, 'C11': check_C11, 'C03': check_C03, 'C04': check_C04, 'C05': check_C05, 'C06': check_C06}
+# ------------------------------------------------------------- C16 / C17 -----
+def run_prim(pool, lines):
+    return run_parallel([os.path.join(pool.dir, 'prim')], lines, env=ASAN_ENV, what='prim')
+
+
+BIG = [2 ** 64 - 1, 2 ** 63, 2 ** 32]
+
+
+def gen_rcalls(rng, n, length, bounded):
+    rem = n
+    out = []
+    for _ in range(length):
+        k = rng.choice('ErRRSSP' if bounded else 'ErRRSS')
+        if k == 'E':
+            out.append('E%d' % rng.choice([0, 1, rem, rem + 1, max(rem - 1, 0)] + BIG))
+        elif k == 'r':
+            out.append('r')
+        elif k == 'R':
+            w = rng.choice([1, 2, 4, 8])
+            c = rng.choice([0, 1, 1, 2, max(rem // w, 0), rem // w + 1])
+            out.append('R%dx%d' % (w, c))
+        elif k == 'S':
+            out.append('S%d' % rng.choice([0, 1, 2, rem, rem + 1] + BIG))
+        else:
+            out.append('P')
+    return out
+
+
+def first_fail(res):
+    """per-call outcomes up to and including the first failing call"""
+    outs = res.split(',') if res != '-' else []
+    cut = []
+    for o in outs:
+        cut.append(o)
+        if not (o == '0' or o.startswith('0:')):
+            break
+    return cut
+
+
+def check_C16(ctx):
+    proofs_or_violation(ctx, ['Properties_C16.v'])
+    pool = get_pool()
+    rng = ctx.rng
+    lines = []
+    data = '0102030405060708090a0b0c'
+    N = 12
+    limits = [0, 1, 3, 8, 12, 13, 2 ** 64 - 1]
+    # exhaustive sequences of length <= 3 over a boundary alphabet (reader), random longer ones
+    import itertools
+    for lim in limits:
+        rem = min(lim, N)
+        alpha = ['E0', 'E%d' % (rem + 1), 'E%d' % BIG[0], 'r', 'R1x0', 'R2x1', 'R1x%d' % rem, 'R1x%d' % (rem + 1),
+                 'S1', 'S%d' % rem, 'S%d' % (rem + 1), 'S%d' % BIG[0], 'S%d' % BIG[1], 'P']
+        for L in (1, 2, 3) if ctx.quick else (1, 2, 3, 4):
+            seqs = list(itertools.product(alpha, repeat=L))
+            if len(seqs) > 3000:
+                seqs = rng.sample(seqs, 3000)
+            for s in seqs:
+                lines.append(('r', lim, N, 'rseq binst %d - 0 %s %s' % (lim, data, ','.join(s))))
+        for _ in range(300 if ctx.quick else 5000):
+            fk = rng.choice(['-', '-', '0', '1', '2', '3'])
+            calls = gen_rcalls(rng, rem, rng.randint(3, 9), True)
+            lines.append(('r', lim, N, 'rseq binst %d %s 16 %s %s' % (lim, fk, data, ','.join(calls))))
+            lines.append(('r', lim, N, 'rseq bped %d - 0 %s %s' % (lim, data, ','.join(calls))))
+    # writers
+    for lim in [0, 1, 4, 9, 2 ** 64 - 1]:
+        rem = min(lim, 64)
+        walpha = ['P0', 'P%d' % rem, 'P%d' % (rem + 1), 'P%d' % BIG[0], 'w7', 'W1x', 'W2x0102', 'W4x01020304', 'W1x' + 'ab' * min(rem, 20),
+                  'W1x' + 'cd' * (min(rem, 20) + 1), 'K0:1', 'K1:255', 'K%d:9' % rem if rem <= 64 else 'K3:9']
+        if lim < 2 ** 32:
+            # sizes near 2^64 must be refused by the limit; with an unlimited frame they would be genuine writes
+            walpha += ['K%d:0' % BIG[0], 'D', 'D170']
+        for L in (1, 2, 3) if ctx.quick else (1, 2, 3, 4):
+            seqs = list(itertools.product(walpha, repeat=L))
+            if len(seqs) > 3000:
+                seqs = rng.sample(seqs, 3000)
+            for s in seqs:
+                lines.append(('w', lim, None, 'wseq binst 0 %d - 0 %s' % (lim, ','.join(s))))
+        for _ in range(300 if ctx.quick else 5000):
+            fk = rng.choice(['-', '-', '0', '1', '2'])
+            s = [rng.choice(walpha) for _ in range(rng.randint(3, 8))]
+            lines.append(('w', lim, None, 'wseq binst 0 %d %s 14 %s' % (lim, fk, ','.join(s))))
+    ho = run_prim(pool, [l[3] for l in lines])
+    mo = run_driver(pool, [l[3] for l in lines])
+    broken = []
+    for (kind, lim, n, line), o, m in zip(lines, ho, mo):
+        ctx.count('bounded-%s' % kind, line)
+        if o.startswith(('CRASH', 'HARNESS', 'EXCEPTION', 'OOM')):
+            ctx.violate('memory-error', 'bounded %s crashed or tripped a sanitizer: %s -> %s' % ('reader' if kind == 'r' else 'writer', line[:200], o[:300]), {'case': line, 'output': o})
+            continue
+        f = sx.fields(o)
+        used = int(f.get('used', '0'))
+        # calls are counted only when they succeed: recompute the count from the per-call outcomes
+        exp_used = 0
+        calls_ = line.split(' ')[-1].split(',')
+        outs_ = f['res'].split(',') if f['res'] != '-' else []
+        for c_, o_ in zip(calls_, outs_):
+            if not (o_ == '0' or o_.startswith('0:')):
+                continue
+            if c_ in ('r',) or c_[0] == 'w':
+                exp_used += 1
+            elif c_[0] == 'R':
+                w_, n_ = c_[1:].split('x'); exp_used += int(w_) * int(n_)
+            elif c_[0] == 'W':
+                exp_used += len(c_.split('x', 1)[1]) // 2
+            elif c_[0] == 'S':
+                exp_used += int(c_[1:])
+            elif c_[0] == 'K':
+                exp_used += int(c_[1:].split(':')[0])
+            elif c_[0] in 'PD' and (kind == 'r' and c_ == 'P' or kind == 'w' and c_[0] == 'D'):
+                exp_used = lim
+        if used != exp_used:
+            ctx.violate('miscounted', 'the bounded %s reports %d bytes used, the successful calls add up to %d: %s -> %s' % ('reader' if kind == 'r' else 'writer', used, exp_used, line[:200], o[:160]),
+                        {'case': line, 'output': o, 'expected_used': exp_used})
+        if used > lim:
+            ctx.violate('limit-exceeded', 'the bounded %s counted %d bytes with a limit of %d: %s' % ('reader' if kind == 'r' else 'writer', used, lim, line[:200]), {'case': line, 'output': o})
+        if kind == 'r' and 'pos' in f and int(f['pos']) > lim:
+            ctx.violate('limit-exceeded', '%s bytes were consumed from the wrapped reader with a limit of %d: %s' % (f['pos'], lim, line[:200]), {'case': line, 'output': o})
+        if kind == 'w' and hexlen(f.get('bytes', '-')) > lim:
+            ctx.violate('limit-exceeded', '%d bytes reached the wrapped writer with a limit of %d: %s' % (hexlen(f['bytes']), lim, line[:200]), {'case': line, 'output': o})
+        if not m.startswith('DRIVER') and sx.fields(m) != f:
+            broken.append({'case': line, 'hraw': o, 'mraw': m})
+    report_broken(ctx, broken, 'bounded-calls', 'BoundedReader/BoundedWriter per-call outcomes, counts and wrapped-object call log = model bounded_rops/bounded_wops')
+    return finish_with_proofs(ctx)
+
+
+def check_C17(ctx):
+    proofs_or_violation(ctx, ['Properties_C17.v'])
+    pool = get_pool()
+    rng = ctx.rng
+    cases = []
+    rkinds = ['inst', 'buf', 'ped', 'stream', 'fd', 'bbuf', 'bped', 'binst']
+    for _ in range(600 if ctx.quick else 20000):
+        n = rng.choice([0, 1, 2, 7, 8, 9, 16, 31])
+        data = ''.join('%02x' % rng.randrange(256) for _ in range(n)) or '-'
+        calls = [c for c in gen_rcalls(rng, n, rng.randint(1, 8), False)]
+        cases.append((n, data, calls))
+    lines = []
+    for n, data, calls in cases:
+        for k in rkinds:
+            cs = calls
+            if k == 'fd':
+                cs = [c for c in calls if c[0] not in 'SE']     # FdReader has no Skip; its Ensure is a no-op
+            if k == 'stream':
+                cs = [c for c in calls if c[0] != 'E']          # StreamReader::Ensure is a no-op
+            lines.append((k, n, data, cs, 'rseq %s %d - 0 %s %s' % (k, n + 5, data, ','.join(cs) or '-')))
+    ho = run_prim(pool, [l[4] for l in lines])
+    mo = run_driver(pool, [l[4] for l in lines])
+    broken = []
+    ref = {}
+    for (k, n, data, cs, line), o, m in zip(lines, ho, mo):
+        ctx.count('reader:' + k, line)
+        if o.startswith(('CRASH', 'HARNESS', 'EXCEPTION', 'OOM')):
+            ctx.violate('memory-error:' + k, 'reader %s crashed or tripped a sanitizer: %s -> %s' % (k, line[:200], o[:300]), {'case': line, 'output': o})
+            continue
+        f = sx.fields(o)
+        got = first_fail(f['res'])
+        # reference: the list model on the same calls
+        want = first_fail(sx.fields(m)['res']) if not m.startswith('DRIVER') else None
+        if want is not None:
+            # same bytes in the same order, first failure at the same call; the failing status may be
+            # ReadLimitReached, StreamError or IOError depending on the reader
+            ok = len(got) == len(want) and all((a == b) or (not a.startswith('0') and not b.startswith('0') and a in ('12', '14', '16'))
+                                               for a, b in zip(got, want))
+            if not ok:
+                ctx.violate('reader-contract:' + k, 'reader %s deviates from the byte-source contract: %s -> %s (expected %s)' % (k, line[:200], ','.join(got)[:160], ','.join(want)[:160]),
+                            {'case': line, 'output': o, 'model': m})
+            elif k in ('inst', 'buf', 'ped', 'bbuf', 'bped', 'binst') and sx.fields(m) != f:
+                broken.append({'case': line, 'hraw': o, 'mraw': m})
+    # writers
+    wkinds = ['inst', 'buf', 'ped', 'cx', 'stream', 'fd', 'bbuf', 'bped', 'binst']
+    wl = []
+    for _ in range(500 if ctx.quick else 15000):
+        cap = rng.choice([0, 1, 4, 16, 64])
+        calls, used, fits = [], 0, True
+        for _ in range(rng.randint(1, 8)):
+            k = rng.choice('PwWWK')
+            if k == 'P':
+                calls.append('P%d' % rng.choice([0, 1, max(cap - used, 0), max(cap - used, 0) + 1, 2 ** 64 - 1]))
+            elif k == 'w':
+                calls.append('w%d' % rng.randrange(256)); used += 1
+            elif k == 'W':
+                w = rng.choice([1, 2, 4, 8]); c = rng.choice([0, 1, 2])
+                calls.append('W%dx%s' % (w, ''.join('%02x' % rng.randrange(256) for _ in range(w * c)))); used += w * c
+            else:
+                c = rng.choice([0, 1, 3]); calls.append('K%d:%d' % (c, rng.randrange(256))); used += c
+        wl.append((cap, calls, used))
+    wlines = []
+    for cap, calls, used in wl:
+        for k in wkinds:
+            cs = calls
+            if k == 'fd':
+                cs = [c for c in calls if c[0] != 'K']
+            if k in ('buf', 'bbuf') and used > cap:
+                continue        # an unchecked writer must not be driven past its capacity (caller's contract)
+            wlines.append((k, cap, cs, used, 'wseq %s %d %d - 0 %s' % (k, cap, cap, ','.join(cs) or '-')))
+    ho = run_prim(pool, [l[4] for l in wlines])
+    mo = run_driver(pool, [l[4] for l in wlines])
+    for (k, cap, cs, used, line), o, m in zip(wlines, ho, mo):
+        ctx.count('writer:' + k, line)
+        if o.startswith(('CRASH', 'HARNESS', 'EXCEPTION', 'OOM')):
+            ctx.violate('memory-error:' + k, 'writer %s crashed or tripped a sanitizer: %s -> %s' % (k, line[:200], o[:300]), {'case': line, 'output': o})
+            continue
+        f = sx.fields(o)
+        if m.startswith('DRIVER'):
+            continue
+        g = sx.fields(m)
+        if f.get('res') != g.get('res') or f.get('bytes') != g.get('bytes'):
+            if k in ('stream', 'fd', 'inst'):
+                ctx.violate('writer-contract:' + k, 'writer %s does not produce the byte stream of the calls: %s -> %s (expected %s)' % (k, line[:200], o[:160], m[:160]), {'case': line, 'output': o, 'model': m})
+            else:
+                # checked writers must refuse exactly the over-capacity calls: decided against the model
+                ctx.violate('writer-contract:' + k, 'writer %s deviates from the byte-sink contract (refusals / bytes): %s -> %s (expected %s)' % (k, line[:200], o[:160], m[:160]), {'case': line, 'output': o, 'model': m})
+    # compile time = run time = documented format
+    cx = run_prim(pool, ['cxcases'])[0]
+    f = sx.fields(cx)
+    fam = dict((name, (t, val)) for t, (name, val) in nopgen.cx_family())
+    descs = [nopgen.desc(t) for t in pool.types]
+    for name, (t, val) in fam.items():
+        ctx.count('constexpr', name)
+        tid = descs.index(nopgen.desc(t))
+        ct, rt, rt2 = f[name].split('/')
+        mm = sx.fields(run_driver(pool, ['enc T%d %s' % (tid, val)])[0])
+        if not (ct == rt == rt2 == mm.get('spec')):
+            ctx.violate('constexpr-differs', 'compile-time serialization of %s differs: compile time %s, run time %s / %s, documented format %s' % (name, ct, rt, rt2, mm.get('spec')),
+                        {'case': name, 'compile_time': ct, 'run_time': rt, 'instrumented': rt2, 'model': mm})
+    report_broken(ctx, broken, 'reader-calls', 'reader per-call outcomes and position = model')
+    return finish_with_proofs(ctx)
+
+
+CHECKS = {'C01': check_C01, 'C02': check_C02, 'C07': check_C07, 'C09': check_C09, 'C16': check_C16, 'C17': check_C17, 'C08': check_C08, 'C10': check_C10, 'C11': check_C11, 'C03': check_C03, 'C04': check_C04, 'C05': check_C05, 'C06': check_C06}
 
 
 def run(pid, tier, seed, replay=None):
